@@ -463,7 +463,15 @@ def check(pid, tier):
                                 witness=_hole_witness(h)))
             else:
                 obs.append(dict(id=oid, status="proved", unit=f"{h['module']}:{h['line']}", sample=f"{h['hole']} : {k}"))
-    payloads = [(pid, pos, s) for pos in POSITIONS for s in ALPHABET
+    alphabet = list(ALPHABET)
+    if tier == "thorough":
+        atoms = ["'", '"', "\\", "\n", "{", "}", "%", "{0}", "{m}", "%(a)s", "\x00", "\u2028", "'" * 3, '"' * 3, "#", "\r", "$"]
+        for a_ in atoms:
+            for b_ in atoms:
+                if a_ != b_:
+                    alphabet.append(a_ + "k" + b_)
+        alphabet = list(dict.fromkeys(alphabet))
+    payloads = [(pid, pos, s) for pos in POSITIONS for s in alphabet
                 # Python itself refuses a class attribute named __class__ holding a string (type.__setattr__ raises), so
                 # that name cannot be a discriminator field of any hierarchy: not a schema mashumaro can be given
                 if not (pos == "discriminator_field" and s == "__class__")]
